@@ -17,7 +17,7 @@ T4 = ["<!DOCTYPE html>", '<!DOCTYPE q PUBLIC "-//W3C//DTD HTML 4.01 Frameset//">
 T5 = ["<svg>", "</svg>", "<math>", "</math>", "<mi>", "<mglyph>", "<annotation-xml encoding=text/html>", "<annotation-xml>",
       "<foreignObject>", "<desc>", "<title>", "<p>", "</p>", "<b>", "<font color=r>", "<font>", "<svg/>", "<![CDATA[x]]>", "x",
       "<table>", "<tr>", "</title>", "</foreignObject>", "<g xlink:href=a definitionurl=b>", "</mi>", "<br>", "</br>", "<select>", "</table>",
-      "<head>", "<html>", "<colgroup>"]
+      "<head>", "<html>", "<colgroup>", "<link>", "<input>"]      # (void-named elements that do not break out of foreign content)
 T6 = ["<li>", "</li>", "<ul>", "</ul>", "<dd>", "<dt>", "<p>", "</p>", "<h1>", "<h2>", "</h1>", "<pre>", "\n", "<textarea>",
       "</textarea>", "<form>", "</form>", "<rt>", "<rp>", "<ruby>", "<option>", "<button>", "</button>", "<address>", "<hr>",
       "<listing>", "x", "<div>", "</div>", "<b>"]
@@ -100,3 +100,35 @@ def parse_etree(text, container=None, scripting=False, ns=True, full=False):
         return (trees.canon_etree(d),) if d is not None else ()
     d = p.parseFragment(text, container=container, scripting=scripting)
     return trees.canon_etree(d)
+
+
+# ---- element-name sweep (flat product: every element name of the standard's tables x structural templates) ----------
+# Table-driven code (special / scoping / formatting / void / breakout / implied-end-tag name sets in constants.py and in
+# the phase dispatch tables) is decided per NAME; the BFS alphabets contain only a few dozen names, this product
+# contains all of them.  <template> is left out (known finding: not implemented).
+ALL_NAMES = """a abbr address area article aside audio b base bdi bdo blockquote body br button canvas caption cite code col colgroup data
+datalist dd del details dfn dialog div dl dt em embed fieldset figcaption figure footer form h1 h2 h3 h4 h5 h6 head header hgroup hr html i
+iframe img input ins kbd label legend li link main map mark menu meta meter nav noscript object ol optgroup option output p param picture
+pre progress q rp rt ruby s samp script section select slot small source span strong style sub summary sup table tbody td textarea
+tfoot th thead time title tr track u ul var video wbr applet acronym bgsound dir frame frameset noframes isindex keygen listing menuitem
+nextid noembed plaintext rb rtc strike xmp basefont big blink center font marquee multicol nobr spacer tt image command unknownx
+svg math mi mo mn ms mtext annotation-xml foreignobject desc mglyph malignmark""".split()
+NAME_TEMPLATES = ["<%s>x", "<%s></%s>x", "<p><%s>x</p>y", "<b><%s>x</b>y", "<table><%s>x", "<%s><table><tr><td>x", "<a1><%s></a1>x", "<li><%s><li>x",
+                  "<%s><p></%s>x", "<select><%s>x", "<svg><%s>x</svg>y", "<math><%s>x", "<%s><%s>x", "<button><%s></button>x", "<h1><%s>x</h1>y",
+                  "<ul><li><%s></li>x", "<table><tr><td><%s></td>x", "<%s a=1>x</%s><%s b=2>", "</%s>x", "<p></%s>x", "<table></%s>x", "<dd><%s><dt>x",
+                  "<head><%s></head>x", "<a><%s><a>x", "<nobr><%s><nobr>x", "<form><%s><form>x", "<svg><desc><%s>x", "<math><mi><%s>x", "<p><%s></p>x",
+                  "<frameset><%s>x", "<html><%s><body a=1>x", "<table><caption><%s><tr>x", "<table><colgroup><%s>x", "<select><option><%s>x</select>y"]
+NAME_CONTEXTS = [(None, False), (None, True), ("div", False), ("td", False), ("select", False), ("table", False)]
+
+
+def name_cases():
+    """-> list of (text, container, scripting); fragment parses of foreign content are left out (see DESIGN section 9)"""
+    out = []
+    for name in ALL_NAMES:
+        for t in NAME_TEMPLATES:
+            text = t.replace("%s", name)
+            for cont, scr in NAME_CONTEXTS:
+                if cont is not None and ("<svg" in text or "<math" in text):
+                    continue
+                out.append((text, cont, scr))
+    return out
